@@ -78,6 +78,12 @@ def run(ctx):
         use = scr if (not quick or fam == "vector") else scr[:3]
         for i, ops in enumerate(use):
             jobs.append((algo, fam, ops, 4, ctx.seed + i, False))
+    # agent wrapper (RSNorm) around single- and multi-agent algorithms, vector and dict observations
+    wops = [("create", 1, 3), ("act", 1), ("learn", 1, 1), ("clone", 1, 2, 5), ("act", 1), ("learn", 1, 2), ("learn", 2, 2), ("act", 2),
+            ("clone", 2, 3, 6), ("act", 3), ("learn", 3, 3), ("discard", 2), ("act", 1)]
+    # (RSNorm with norm_obs_keys and around multi-agent algorithms raises in this version; Dict-of-Box and plain spaces work)
+    for (algo, fam) in ([("DQN", "boxdict"), ("DDPG", "vector")] if quick else [("DQN", "boxdict"), ("DQN", "vector"), ("DDPG", "boxdict"), ("RainbowDQN", "vector"), ("TD3", "image")]):
+        jobs.append((algo, fam, wops, 4, ctx.seed + 50, False, True))
     traces = ec.run_scripts(jobs)
     for t, j in zip(traces, jobs):
         ctx.case((j[0], j[1], str(j[2])), nontrivial=any(o[0] == "clone" for o in j[2]))
